@@ -1,33 +1,297 @@
-/* C01 (and C02) tie for the mixer window theorems of XmpProps.C01:
- * every call of a mixing kernel made by the real libxmp_mixer_softmixer is
- * observed (the call site `mix_fn(...)` is rerouted through a function-like
- * macro, no source change), the fixed-point walk of the kernel is recomputed
- * and (a) checked directly against the allocation bounds of the sample
- * (direct oracle), (b) printed for the Lean driver, which evaluates the
- * model's `windowOk` and the hypotheses of C01_window_forward/_reverse.
+/* C01 (and C02) tie for the mixer window theorems and the voice position
+ * invariant of XmpProps.C01 (models XmpModel/MixWindow.lean, XmpModel/VoicePos.lean).
+ *
+ * Nothing in /repo is changed: mixer.c is included into this translation unit
+ * and observed through function-like / object-like macros:
+ *
+ *   mix_fn(...)            the kernel call site          -> spy_mix   (every kernel call)
+ *   .split                 read at the top of every iteration of the segment loop
+ *                                                        -> c01_top   (state at the loop top, size, usmp)
+ *   libxmp_mixer_softmixer / _voicepos / _setpatch / _reverse / _release
+ *                          renamed; wrappers with the public names log the state
+ *                          before and after the real function
+ *
+ * (a) direct oracle: the fixed-point walk of every kernel call is recomputed and
+ *     compared with the allocation bounds of the sample;
+ * (b) `w` lines: kernel calls for the driver (windowOk + hypotheses of
+ *     C01_window_forward/_reverse);
+ * (c) `T/L/K/E/P/A/R/Z` lines: exact voice states (positions as exact dyadic
+ *     rationals over 2^62) before/after every tick prologue, segment-loop
+ *     iteration, loop_reposition (inside the iteration), voicepos, setpatch,
+ *     reverse and release; the driver recomputes each transition with the Lean
+ *     model and evaluates the invariant `voiceInv` on every observed state.
  *
  * usage: c01_window <seed> <ncases> <frames> <module>...
- * output: one line per observed kernel call (sampled) :
- *   w <q0> <stepfix> <count> <interp> <len> <rev> <pn> <sn> <bound> <D>
- *   bad <text>      direct oracle failure
- *   stat calls=<n> printed=<n> maxiter=<n> ticksize_violations=<n>
+ *        c01_window fixed <rate> <interp> <frames> <module>...   (regression witnesses)
  */
 #include "vcommon.h"
+#include <math.h>
+#if defined(__has_feature)
+#if __has_feature(address_sanitizer)
+#include <sanitizer/allocator_interface.h>
+#define C01_HAVE_ALLOC_SIZE 1
+#endif
+#endif
+#include <limits.h>
 #include <xmp.h>
 #include "common.h"
-#include "mixer.h"
 #include "virtual.h"
+#include "mixer.h"
+#include "period.h"
+#include "player.h"
+#ifdef LIBXMP_PAULA_SIMULATOR
+#include "paula.h"
+#endif
 
 static void spy_mix(struct context_data *ctx, void (*fn)(struct mixer_voice *, int32 *, int, int, int, int, int, int, int),
 		    struct mixer_voice *vi, int32 *buf, int count, int vl, int vr, int step, int ramp, int dl, int dr);
+static int c01_top(struct context_data *ctx, struct mixer_voice *vi, struct xmp_sample *xxs,
+		   struct extra_sample_data *xtra, double step, int size, int usmp);
 
 #define mix_fn(vi, buf, count, vl, vr, step, ramp, dl, dr) \
 	spy_mix(ctx, (mix_fn), (vi), (buf), (count), (vl), (vr), (step), (ramp), (dl), (dr))
+#define split split + c01_top(ctx, vi, xxs, xtra, step, size, usmp)
+#define libxmp_mixer_softmixer real_mixer_softmixer
+#define libxmp_mixer_voicepos real_mixer_voicepos
+#define libxmp_mixer_setpatch real_mixer_setpatch
+#define libxmp_mixer_reverse real_mixer_reverse
+#define libxmp_mixer_release real_mixer_release
+
+void real_mixer_softmixer(struct context_data *);
+void real_mixer_voicepos(struct context_data *, int, double, int);
+void real_mixer_setpatch(struct context_data *, int, int, int);
+void real_mixer_reverse(struct context_data *, int, int);
+void real_mixer_release(struct context_data *, int, int);
 
 #include "mixer.c"
 
-static long n_calls, n_printed, n_bad, max_count, tick_viol;
+#undef split
+#undef libxmp_mixer_softmixer
+#undef libxmp_mixer_voicepos
+#undef libxmp_mixer_setpatch
+#undef libxmp_mixer_reverse
+#undef libxmp_mixer_release
+
+static long n_calls, n_printed, n_bad, max_count, tick_viol, n_alloc_checked, n_alloc_bad;
+static long n_vticks, n_vticks_traced, n_api, n_api_traced;
 static int print_every = 1;
+static int trace_every = 1;		/* voice-ticks */
+static int api_every = 1;
+
+/* ---- exact state records ------------------------------------------------ */
+
+/* a double as "hi lo": value = hi + lo / 2^62, 0 <= lo < 2^62 */
+static void pnum(double x)
+{
+	double hi = floor(x);
+	double fr = x - hi;			/* exact, in [0,1) */
+	long long lo = (long long)(fr * 4611686018427387904.0);	/* exact unless x has bits below 2^-62 */
+	printf(" %lld %lld", (long long)hi, lo);
+}
+
+static struct xmp_sample *sample_of(struct context_data *ctx, int smp, struct extra_sample_data **xtra)
+{
+	struct module_data *m = &ctx->m;
+	*xtra = NULL;
+	if (smp < 0)
+		return NULL;
+	if (smp < m->mod.smp) {
+		*xtra = &m->xtra[smp];
+		return &m->mod.xxs[smp];
+	}
+	if (smp - m->mod.smp < ctx->smix.smp)
+		return &ctx->smix.xxs[smp - m->mod.smp];
+	return NULL;
+}
+
+/* S valid len lps lpe sus sue loop lbidir lfull sloop sbidir ismod synth hasdata */
+static void psmp(struct context_data *ctx, int smp)
+{
+	struct extra_sample_data *xtra;
+	struct xmp_sample *xxs = sample_of(ctx, smp, &xtra);
+	if (xxs == NULL) {
+		printf(" S 0 0 0 0 0 0 0 0 0 0 0 0 0 0");
+		return;
+	}
+	printf(" S 1 %d %d %d %d %d %d %d %d %d %d %d %d %d", xxs->len, xxs->lps, xxs->lpe, xtra ? xtra->sus : 0,
+	       xtra ? xtra->sue : 0, !!(xxs->flg & XMP_SAMPLE_LOOP), !!(xxs->flg & XMP_SAMPLE_LOOP_BIDIR),
+	       !!(xxs->flg & XMP_SAMPLE_LOOP_FULL), !!(xxs->flg & XMP_SAMPLE_SLOOP), !!(xxs->flg & XMP_SAMPLE_SLOOP_BIDIR),
+	       xtra != NULL, !!(xxs->flg & XMP_SAMPLE_SYNTH), xxs->data != NULL);
+}
+
+/* V hi lo start end release sloopf rev bidir queued paused active chn  + S record of vi->smp */
+static void pvoice(struct context_data *ctx, const struct mixer_voice *vi)
+{
+	printf(" V");
+	pnum(vi->pos);
+	printf(" %d %d %d %d %d %d %d %d %d %d", vi->start, vi->end, !!(vi->flags & VOICE_RELEASE), !!(vi->flags & SAMPLE_LOOP),
+	       !!(vi->flags & VOICE_REVERSE), !!(vi->flags & VOICE_BIDIR), !!(vi->flags & SAMPLE_QUEUED),
+	       !!(vi->flags & SAMPLE_PAUSED), !!(vi->fidx & FLAG_ACTIVE), vi->chn);
+	psmp(ctx, vi->smp);
+}
+
+/* ---- tick tracing --------------------------------------------------------- */
+
+static struct mixer_voice *pre_voices;	/* copy of the voice array before the tick */
+static int pre_maxvoc;
+static unsigned char *voc_seen;		/* 0 = not yet in the loop this tick, 1 = traced, 2 = not traced */
+
+static int c01_top(struct context_data *ctx, struct mixer_voice *vi, struct xmp_sample *xxs,
+		   struct extra_sample_data *xtra, double step, int size, int usmp)
+{
+	struct player_data *p = &ctx->p;
+	int voc = (int)(vi - p->virt.voice_array);
+
+	(void)xxs;
+	(void)xtra;
+	if (voc < 0 || voc >= pre_maxvoc || pre_voices == NULL)
+		return 0;
+	if (voc_seen[voc] == 0) {
+		n_vticks++;
+		if (n_vticks % trace_every == 0) {
+			const struct mixer_voice *pv = &pre_voices[voc];
+			voc_seen[voc] = 1;
+			n_vticks_traced++;
+			/* T voc <V pre> step ticksize adj split Q <queued sample> */
+			printf("T %d", voc);
+			pvoice(ctx, pv);
+			pnum(step);
+			printf(" %d %d %d Q", ctx->s.ticksize, ctx->s.bidir_adjust, p->xc_data[vi->chn].split ? 1 : 0);
+			psmp(ctx, (pv->flags & SAMPLE_QUEUED) || (vi->flags & SAMPLE_QUEUED) ? vi->queued.smp : -1);
+			printf("\n");
+		} else {
+			voc_seen[voc] = 2;
+		}
+	}
+	if (voc_seen[voc] == 1) {
+		printf("L %d", voc);
+		pvoice(ctx, vi);
+		printf(" %d %d\n", size, usmp);
+	}
+	return 0;
+}
+
+void libxmp_mixer_softmixer(struct context_data *ctx)
+{
+	struct player_data *p = &ctx->p;
+	int n = p->virt.maxvoc, v;
+
+	if (n > 0 && p->virt.voice_array != NULL) {
+		pre_voices = (struct mixer_voice *)realloc(pre_voices, n * sizeof(struct mixer_voice));
+		voc_seen = (unsigned char *)realloc(voc_seen, n);
+		memcpy(pre_voices, p->virt.voice_array, n * sizeof(struct mixer_voice));
+		memset(voc_seen, 0, n);
+		pre_maxvoc = n;
+	} else {
+		pre_maxvoc = 0;
+	}
+	real_mixer_softmixer(ctx);
+	for (v = 0; v < pre_maxvoc && v < p->virt.maxvoc; v++) {
+		if (voc_seen[v] == 1) {
+			/* E voc <V post> */
+			printf("E %d", v);
+			pvoice(ctx, &p->virt.voice_array[v]);
+			printf("\n");
+		}
+	}
+	pre_maxvoc = 0;
+}
+
+/* ---- API wrappers ----------------------------------------------------------- */
+
+static int api_traced(void)
+{
+	n_api++;
+	if (n_api % api_every)
+		return 0;
+	n_api_traced++;
+	return 1;
+}
+
+void libxmp_mixer_voicepos(struct context_data *ctx, int voc, double pos, int ac)
+{
+	struct player_data *p = &ctx->p;
+	struct mixer_voice *vi = &p->virt.voice_array[voc];
+	int tr = api_traced();
+
+	if (tr) {
+		/* P <V pre> pos adj same Q <queued sample>  ... then  p <V post> */
+		printf("P");
+		pvoice(ctx, vi);
+		pnum(pos);
+		printf(" %d %d Q", ctx->s.bidir_adjust, vi->smp == vi->queued.smp);
+		psmp(ctx, (vi->flags & SAMPLE_QUEUED) ? vi->queued.smp : -1);
+		printf("\n");
+	}
+	real_mixer_voicepos(ctx, voc, pos, ac);
+	if (tr) {
+		printf("p");
+		pvoice(ctx, vi);
+		printf("\n");
+	}
+}
+
+void libxmp_mixer_setpatch(struct context_data *ctx, int voc, int smp, int ac)
+{
+	struct player_data *p = &ctx->p;
+	struct mixer_voice *vi = &p->virt.voice_array[voc];
+	int tr = api_traced();
+
+	if (tr) {
+		/* A <V pre> adj N <new sample>  ... then  a <V post> */
+		printf("A");
+		pvoice(ctx, vi);
+		printf(" %d N", ctx->s.bidir_adjust);
+		psmp(ctx, smp);
+		printf("\n");
+	}
+	real_mixer_setpatch(ctx, voc, smp, ac);
+	if (tr) {
+		printf("a");
+		pvoice(ctx, vi);
+		printf("\n");
+	}
+}
+
+void libxmp_mixer_reverse(struct context_data *ctx, int voc, int rev)
+{
+	struct player_data *p = &ctx->p;
+	struct mixer_voice *vi = &p->virt.voice_array[voc];
+	int tr = api_traced();
+
+	if (tr) {
+		printf("R %d", !!rev);
+		pvoice(ctx, vi);
+		printf("\n");
+	}
+	real_mixer_reverse(ctx, voc, rev);
+	if (tr) {
+		printf("r");
+		pvoice(ctx, vi);
+		printf("\n");
+	}
+}
+
+void libxmp_mixer_release(struct context_data *ctx, int voc, int rel)
+{
+	struct player_data *p = &ctx->p;
+	struct mixer_voice *vi = &p->virt.voice_array[voc];
+	int tr = api_traced();
+
+	if (tr) {
+		printf("Z %d", !!rel);
+		pvoice(ctx, vi);
+		printf("\n");
+	}
+	real_mixer_release(ctx, voc, rel);
+	if (tr) {
+		printf("z");
+		pvoice(ctx, vi);
+		printf("\n");
+	}
+}
+
+/* ---- kernel calls ------------------------------------------------------------- */
 
 static void spy_mix(struct context_data *ctx, void (*fn)(struct mixer_voice *, int32 *, int, int, int, int, int, int, int),
 		    struct mixer_voice *vi, int32 *buf, int count, int vl, int vr, int step, int ramp, int dl, int dr)
@@ -40,6 +304,7 @@ static void spy_mix(struct context_data *ctx, void (*fn)(struct mixer_voice *, i
 	int paula = 0;
 	long long q0, q;
 	int ipos, frac, i, rev, len;
+	int voc = (int)(vi - p->virt.voice_array);
 
 #ifdef LIBXMP_PAULA_SIMULATOR
 	if ((p->flags & XMP_FLAGS_A500) && IS_AMIGA_MOD())
@@ -53,6 +318,23 @@ static void spy_mix(struct context_data *ctx, void (*fn)(struct mixer_voice *, i
 	rev = (vi->flags & VOICE_REVERSE) ? 1 : 0;
 
 	n_calls++;
+#ifdef C01_HAVE_ALLOC_SIZE
+	/* the block C20 proves: malloc(4 + len*framelen + 4*framelen), data = block + 4
+	 * (C01_mixer_reads_in_allocation is stated over exactly this layout) */
+	if (vi->sptr != NULL && vi->sptr == (void *)xxs->data) {
+		int fl = ((xxs->flg & XMP_SAMPLE_16BIT) ? 2 : 1) * ((xxs->flg & XMP_SAMPLE_STEREO) ? 2 : 1);
+		const unsigned char *base = xxs->data - 4;
+		size_t need = 4 + ((size_t)len + 4) * fl;
+		n_alloc_checked++;
+		if (!__sanitizer_get_ownership(base) || __sanitizer_get_allocated_size(base) < need) {
+			if (n_alloc_bad < 5)
+				printf("badalloc sample of %d frames x %d bytes: block at data-4 has %zu bytes (owned=%d), the model needs %zu\n",
+				       len, fl, __sanitizer_get_ownership(base) ? __sanitizer_get_allocated_size(base) : 0,
+				       __sanitizer_get_ownership(base), need);
+			n_alloc_bad++;
+		}
+	}
+#endif
 	if (count > max_count)
 		max_count = count;
 	if (count > s->ticksize)
@@ -79,6 +361,10 @@ static void spy_mix(struct context_data *ctx, void (*fn)(struct mixer_voice *, i
 			}
 			q += step;
 		}
+		if (voc >= 0 && voc < pre_maxvoc && voc_seen[voc] == 1) {
+			/* K voc q0 stepfix count interp : belongs to the preceding L line of this voice */
+			printf("K %d %lld %d %d %d\n", voc, q0, step, count, interp);
+		}
 		if (n_calls % print_every == 0) {
 			/* exact binary rationals over D = 2^30 for the theorem hypotheses:
 			 * forward: pn = floor(pos*D), sn = ceil(|step_d|*D) ; reverse: pn = ceil, sn = ceil */
@@ -94,13 +380,71 @@ static void spy_mix(struct context_data *ctx, void (*fn)(struct mixer_voice *, i
 	fn(vi, buf, count, vl, vr, step, ramp, dl, dr);
 }
 
+static void play_case(int idx, const char *path, int rate, int format, int interp, int frames, int randomize)
+{
+	xmp_context c;
+	struct xmp_module_info mi;
+	int j;
+
+	c = xmp_create_context();
+	if (xmp_load_module(c, path) < 0) {
+		xmp_free_context(c);
+		return;
+	}
+	if (xmp_start_player(c, rate, format) < 0) {
+		xmp_release_module(c);
+		xmp_free_context(c);
+		return;
+	}
+	/* IT random volume/pan variation is seeded from time(): pin it */
+	libxmp_set_random(&((struct context_data *)c)->rng, 12345);
+	xmp_get_module_info(c, &mi);
+	xmp_set_player(c, XMP_PLAYER_INTERP, interp);
+	if (randomize && vrng_chance(20))
+		xmp_set_player(c, XMP_PLAYER_MODE, vrng_below(12));
+	printf("case %d %s rate=%d interp=%d\n", idx, path, rate, interp);
+	for (j = 0; j < frames; j++) {
+		if (randomize) {
+			int r = vrng_below(100);
+			if (r < 3) {
+				int a = vrng_range(0, mi.mod->len);
+				if (getenv("C01_TRACE_CALLS")) { printf("call %d set_position %d\n", j, a); fflush(stdout); }
+				xmp_set_position(c, a);
+			} else if (r < 5) {
+				int a = vrng_range(0, 600000);
+				if (getenv("C01_TRACE_CALLS")) { printf("call %d seek_time %d\n", j, a); fflush(stdout); }
+				xmp_seek_time(c, a);
+			} else if (r < 6) {
+				double a = 0.25 + vrng_below(40) / 8.0;
+				if (getenv("C01_TRACE_CALLS")) { printf("call %d tempo_factor %g\n", j, a); fflush(stdout); }
+				xmp_set_tempo_factor(c, a);
+			}
+		}
+		if (xmp_play_frame(c) < 0)
+			break;
+	}
+	xmp_end_player(c);
+	xmp_release_module(c);
+	xmp_free_context(c);
+}
+
 int main(int argc, char **argv)
 {
 	uint64_t seed;
-	int ncases, frames, i, j, nmods;
+	int ncases, frames, i, nmods;
 
+	if (argc >= 6 && !strcmp(argv[1], "fixed")) {
+		/* regression witnesses: every voice-tick and API call is traced */
+		int rate = atoi(argv[2]), interp = atoi(argv[3]);
+		frames = atoi(argv[4]);
+		print_every = trace_every = api_every = 1;
+		for (i = 5; i < argc; i++)
+			play_case(i - 5, argv[i], rate, 0, interp, frames, 0);
+		goto stat;
+	}
 	if (argc < 5) {
-		fprintf(stderr, "usage: %s <seed> <ncases> <frames> <module>...\n", argv[0]);
+		fprintf(stderr, "usage: %s <seed> <ncases> <frames> <module>...\n       %s fixed <rate> <interp> <frames> <module>...\n",
+			argv[0], argv[0]);
 		return 2;
 	}
 	seed = strtoull(argv[1], NULL, 10);
@@ -108,44 +452,24 @@ int main(int argc, char **argv)
 	frames = atoi(argv[3]);
 	nmods = argc - 4;
 	print_every = 7;
+	trace_every = 11;
+	api_every = 3;
 	for (i = 0; i < ncases; i++) {
 		static const int rates[] = { 4000, 8000, 11025, 22050, 44100, 48000, 49170 };
-		xmp_context c;
-		struct xmp_module_info mi;
 		const char *path;
+		int rate, format, interp;
+		if (getenv("C01_ONLY") && atoi(getenv("C01_ONLY")) != i)
+			continue;	/* replay of a single case: every case is a pure function of (seed, i, file list) */
 		vrng_seed(seed * 1000003ULL + i);
 		path = argv[4 + vrng_below(nmods)];
-		c = xmp_create_context();
-		if (xmp_load_module(c, path) < 0) {
-			xmp_free_context(c);
-			continue;
-		}
-		if (xmp_start_player(c, rates[vrng_below(7)], vrng_below(8)) < 0) {
-			xmp_release_module(c);
-			xmp_free_context(c);
-			continue;
-		}
-		xmp_get_module_info(c, &mi);
-		xmp_set_player(c, XMP_PLAYER_INTERP, vrng_below(3));
-		if (vrng_chance(20))
-			xmp_set_player(c, XMP_PLAYER_MODE, vrng_below(12));
-		printf("case %d %s\n", i, path);
-		for (j = 0; j < frames; j++) {
-			int r = vrng_below(100);
-			if (r < 3)
-				xmp_set_position(c, vrng_range(0, mi.mod->len));
-			else if (r < 5)
-				xmp_seek_time(c, vrng_range(0, 600000));
-			else if (r < 6)
-				xmp_set_tempo_factor(c, 0.25 + vrng_below(40) / 8.0);
-			if (xmp_play_frame(c) < 0)
-				break;
-		}
-		xmp_end_player(c);
-		xmp_release_module(c);
-		xmp_free_context(c);
+		rate = rates[vrng_below(7)];
+		format = vrng_below(8);
+		interp = vrng_below(3);
+		play_case(i, path, rate, format, interp, frames, 1);
 	}
-	printf("stat calls=%ld printed=%ld maxiter=%ld ticksize_violations=%ld bad=%ld\n", n_calls, n_printed, max_count,
-	       tick_viol, n_bad);
+stat:
+	printf("stat calls=%ld printed=%ld maxiter=%ld ticksize_violations=%ld bad=%ld vticks=%ld traced=%ld api=%ld api_traced=%ld alloc_checked=%ld alloc_bad=%ld\n",
+	       n_calls, n_printed, max_count, tick_viol, n_bad, n_vticks, n_vticks_traced, n_api, n_api_traced, n_alloc_checked,
+	       n_alloc_bad);
 	return 0;
 }
